@@ -104,8 +104,11 @@ CHECKS = {
         text="Every one of the 2^11 section-flag combinations x 6 object kinds, 91 per-section content variants under all (thorough) or a covering set of (quick) "
              "enabling flag combinations, and every single-byte substitution (255; quick 5), truncation and one-byte extension of 32 representative payloads are "
              "decoded by the hand-optimised reader and by the declarative template and compared field by field; the template re-encoding is compared byte for byte; "
-             "the tracker's normalisation is compared with a plain-Python reference on the network and the cache-file path.",
-        note="Domain = what the template's own serialize emits plus byte mutations of it; a mutated payload is judged only if the template decodes it and re-encodes "
+             "the tracker's normalisation is compared with a plain-Python reference on the network and the cache-file path. Payloads are produced by an "
+             "independent reference wire encoder (fixed header, prim parameters, section bits and simple sections hand-packed from the protocol layout) and the "
+             "template's own encoding of the same value must be byte-identical (template-encode, template-encode-raises).",
+        note="Domain = what the reference encoder emits plus byte mutations of it; TextureEntry, ExtraParams and particle sections are encoded by sub-templates "
+             "both decoders share, so a defect common to both inside those is visible only through the re-encode clause; a mutated payload is judged only if the template decodes it and re-encodes "
              "it to itself; PCodes outside the enum are counted, not asserted; enums by value, dataclasses by fields, lazy proxies forced, floats bit-exact; decode "
              "histories of depth 3 (decode, in-place edit of the result, decode again by all four decoder paths on the same, twin and shifted payloads), one forked "
              "process per history; encode histories (single-member out-of-domain edits per template member plus bad values for 4 other subfield serializers, each "
